@@ -239,7 +239,7 @@ Definition feed (fx : bool) (s : sk) (chunk : bytes) : sk :=
 Definition feed_all (fx : bool) (chunks : list bytes) : sk := fold_left (feed fx) chunks sk0.
 
 (* the code as it is now *)
-Definition socks_fx_head : bool := false.
+Definition socks_fx_head : bool := true.
 
 (* ---------------------------------------------------------------------------------------- *)
 (* Specification side: what a well-formed request is and what it asks for. *)
